@@ -13,6 +13,7 @@ CONSTANTS
   PertKinds <- K_All
   NumSyss <- N_All
   RrefFlags <- FL_All
+  Options <- O_Default
   MaxEvals = 1
 INVARIANT TypeOK
 INVARIANT BackwardConstructionIsEquilibrium
